@@ -111,13 +111,17 @@ Definition hash_controller (managed : bool) (f : hfault) (current_version h : st
     end.
 
 (* the order of operations on one pool before a claim is built: template edits (the hash of the edited template is
-   [h]) and hash-controller reconciles, in any interleaving. NewNodeClaimTemplate reads the pool OBJECT: the claim is
+   [h]) and hash-controller reconciles, in any interleaving (the controllers keep nothing in memory that outlives an object). NewNodeClaimTemplate reads the pool OBJECT: the claim is
    stamped with Hash() of the template it is built from and the current version, never with the controller's stamp. *)
-Inductive pool_op := PEdit (h : string) | PHashCtl.
+Inductive pool_op :=
+| PEdit (h : string)        (* the template is edited; its hash is now h *)
+| PRecreate (h : string)    (* the pool is deleted and created again under the same name: template hash h, no annotations *)
+| PHashCtl.
 Record pool_state := mkPS { ps_template_hash : string; ps_ann : option string * option string }.
 Definition pool_step (ver : string) (s : pool_state) (o : pool_op) : pool_state :=
   match o with
   | PEdit h => mkPS h (ps_ann s)
+  | PRecreate h => mkPS h (None, None)
   | PHashCtl => mkPS (ps_template_hash s) (fst (hash_reconcile ver (ps_template_hash s) (ps_ann s) []))
   end.
 Definition build_stamp (ver : string) (s : pool_state) : option string * option string :=
